@@ -98,6 +98,47 @@ def extend_pool(pool, derivers, rounds=1):
     return out
 
 
+_CONSTS_CACHE = {}
+
+
+def consts_of(t):
+    """names of the uninterpreted constants (arity 0) occurring in a term; cached per AST (the term is kept alive)"""
+    key = t.get_id()
+    hit = _CONSTS_CACHE.get(key)
+    if hit is not None:
+        return hit[0]
+    out, seen, stack = set(), set(), [t]
+    while stack:
+        x = stack.pop()
+        i = x.get_id()
+        if i in seen:
+            continue
+        seen.add(i)
+        if z3.is_quantifier(x):
+            stack.append(x.body())
+            continue
+        if z3.is_app(x):
+            if x.num_args() == 0:
+                if x.decl().kind() == z3.Z3_OP_UNINTERPRETED:
+                    out.add(x.decl().name())
+            else:
+                stack.extend(x.children())
+    out = frozenset(out)
+    _CONSTS_CACHE[key] = (out, t)
+    return out
+
+
+def schema_consts(sc):
+    """constants captured by a schema's closure (found by instantiating it once at probe variables)"""
+    c = getattr(sc, "_consts", None)
+    if c is None:
+        probes = [z3.Int(f"probe!sc{j}") for j in range(sc.arity)]
+        body = sc.fn(*probes)
+        c = frozenset() if body is None else consts_of(as_bool_term(body)) - {str(p) for p in probes}
+        sc._consts = c
+    return c
+
+
 class Obligation:
     def __init__(self, name, hyps, schemas, pool, goal, kind="post", info=None, derivers=()):
         self.name = name
@@ -128,6 +169,9 @@ class Ctx:
         self.notes = []
         self.derivers = []
         self.goal_guards = []
+        self.skolem_vars = set()
+        self.script_phase = False      # set by the first post / lemma goal or skolem of the sidecar proof script
+        self._seen, self._seen_h, self._seen_s = set(), 0, 0
         self.heap_writes = []          # (buffer, description) for frame conditions
         self.allocs = 0
         self.solver_time = 0.0
@@ -138,14 +182,45 @@ class Ctx:
         t = as_bool_term(t)
         if z3.is_true(t):
             return
+        if self.script_phase:
+            # a constant first mentioned by an assumption made after the proof script's first goal is a variable of the proof script
+            # (induction variable, generic index), not an input: treated like a skolem variable (see `skolem`)
+            self._note_new_consts(t)
         self.hyps.append(t)
 
     def skolem(self, t):
         """range assumption on a skolem constant of a universally quantified *goal* (e.g. 0 <= r < n for the
-        generic row r): logically part of the goal, so the vacuity canary ignores it"""
+        generic row r): logically part of the goal, so the vacuity canary ignores it.
+
+        The constants of `t` that occur in no earlier hypothesis are the skolem variables of this guard.  A later goal in
+        which such a variable does not occur is NOT under this guard (proving `guard(j) -> goal` for a goal without j would
+        only prove `(exists j. guard(j)) -> goal`): `prove` drops every hypothesis and schema mentioning a skolem variable
+        that is dead in the goal."""
         t = as_bool_term(t)
+        self.script_phase = True
+        self._note_new_consts(t)
         self.hyps.append(t)
         self.goal_guards.append(t)
+
+    def declare_inputs(self, *terms):
+        """constants of `terms` are inputs of the function under proof (never skolem variables), even if no hypothesis mentions them"""
+        for t in terms:
+            t = getattr(t, "t", t)
+            if z3.is_expr(t):
+                self._seen |= consts_of(t)
+
+    def _seen_consts(self):
+        for h in self.hyps[self._seen_h:]:
+            self._seen |= consts_of(h)
+        self._seen_h = len(self.hyps)
+        for sc in self.schemas[self._seen_s:]:
+            self._seen |= schema_consts(sc)
+        self._seen_s = len(self.schemas)
+        return self._seen
+
+    def _note_new_consts(self, t):
+        new = consts_of(t) - self._seen_consts()
+        self.skolem_vars |= new
 
     def assume_forall(self, name, fn, arity=1):
         self.schemas.append(Schema(name, fn, arity))
@@ -258,21 +333,33 @@ class Ctx:
         return d.value
 
     # -- obligations ------------------------------------------------------------------------
-    def prove(self, name, goal, kind="post", info=None, extra_pool=(), pool=None):
-        """pool: explicit instantiation terms for this obligation (instead of the path's whole index pool)"""
+    def prove(self, name, goal, kind="post", info=None, extra_pool=(), pool=None, live=()):
+        """pool: explicit instantiation terms for this obligation (instead of the path's whole index pool)
+        live: skolem variables the claim is deliberately quantified over although the goal term does not mention them
+        (the obligation then reads  forall live. guards(live) -> goal)"""
         goal = as_bool_term(goal)
+        if kind in ("post", "lemma"):
+            self.script_phase = True
         for e in extra_pool:
             self.add_index(e)
         use = self.pool if pool is None else [z3.simplify(as_int_term(t)) for t in pool]
-        ob = Obligation(name, self.hyps, self.schemas, use, goal, kind, info, derivers=self.derivers)
-        ob.guards = list(self.goal_guards)
+        hyps, schemas, guards = self.hyps, self.schemas, self.goal_guards
+        dead = self.skolem_vars - consts_of(goal) - {str(v) for v in live}
+        if dead:
+            hyps = [h for h in hyps if not (consts_of(h) & dead)]
+            schemas = [sc for sc in schemas if not (schema_consts(sc) & dead)]
+            guards = [g for g in guards if not (consts_of(g) & dead)]
+        ob = Obligation(name, hyps, schemas, use, goal, kind, info, derivers=self.derivers)
+        ob.guards = list(guards)
+        ob.dropped_for_dead_skolems = len(self.hyps) - len(hyps) + len(self.schemas) - len(schemas)
         self.obligations.append(ob)
         return ob
 
     def prove_then_assume(self, name, goal, **kw):
         """stepping stone: an obligation of its own, afterwards available as hypothesis."""
         ob = self.prove(name, goal, kind=kw.pop("kind", "lemma"), **kw)
-        self.assume(goal)
+        # the fact is available later only together with the guards it was proved under
+        self.assume(z3.Implies(z3.And(*ob.guards), as_bool_term(goal)) if ob.guards else goal)
         return ob
 
     def path_id(self):
